@@ -7,46 +7,70 @@ From GoBT Require Import lib.Bytes lib.Parse lib.VarInt model.Tx proofs.TxProofs
 Import ListNotations.
 Local Open Scope N_scope.
 
-(** [al <= 32 * consumed + 16384], on success and on error; never the fuel artefact *)
+(** [al <= 32 * consumed + 16384], on success and on error; never the fuel artefact.
+    (A panic has allocated nothing that matters any more; proofs/AllocProofs.v section 5 shows there is none
+    for inputs up to [input_limit], see [alloc_consumed_answers] below.) *)
 Definition alloc_vs_consumed {A} (r : ares A) : Prop :=
   match r with
   | AOk _ n _ al => al <= alloc_c * n + alloc_k
   | AErr n al => al <= alloc_c * n + alloc_k
   | AFuel => False
+  | APanic => True
   end.
 
 Lemma Q_alloc_vs_consumed {A} D E (r : ares A) :
   Q D E r -> r <> AFuel -> (D <= 16384)%Z -> (E <= 16384)%Z -> alloc_vs_consumed r.
 Proof.
   unfold alloc_vs_consumed, alloc_c, alloc_k.
-  destruct r as [a n rest al|n al|]; cbn [Q]; intros HQ HF HD HE; try lia. congruence.
+  destruct r as [a n rest al|n al| |]; cbn [Q]; intros HQ HF HD HE; try lia; congruence.
 Qed.
 
-Lemma not_fuel_of_erase {A} (r : ares A) : erase r <> PFuel -> r <> AFuel.
-Proof. intros H E. apply H. rewrite E. reflexivity. Qed.
 
 Theorem alloc_consumed_tx bs : alloc_vs_consumed (a_read_tx bs).
 Proof.
   apply (Q_alloc_vs_consumed _ _ _ (Q_read_tx bs)); try lia.
-  apply not_fuel_of_erase. rewrite erase_read_tx. apply read_tx_never_out_of_fuel.
+  apply (a_decode_total bs).
 Qed.
 Theorem alloc_consumed_stream bs : alloc_vs_consumed (a_tx_from_stream bs).
 Proof.
   apply (Q_alloc_vs_consumed _ _ _ (Q_tx_from_stream bs)); try lia.
-  apply not_fuel_of_erase. rewrite erase_tx_from_stream. apply read_tx_never_out_of_fuel.
+  apply (a_decode_total bs).
 Qed.
 Theorem alloc_consumed_txs bs : alloc_vs_consumed (a_read_txs bs).
 Proof.
   apply (Q_alloc_vs_consumed _ _ _ (Q_read_txs bs)); try lia.
-  apply not_fuel_of_erase. rewrite erase_read_txs. apply read_txs_never_out_of_fuel.
+  apply (a_decode_total bs).
 Qed.
 Theorem alloc_consumed_input ext bs : alloc_vs_consumed (a_read_input ext bs).
 Proof.
   apply (Q_alloc_vs_consumed _ _ _ (Q_read_input ext bs)); try lia.
-  apply not_fuel_of_erase. rewrite erase_read_input. apply read_input_nf.
+  destruct ext; apply (a_decode_total bs).
 Qed.
 Theorem alloc_consumed_output bs : alloc_vs_consumed (a_read_output bs).
 Proof.
   apply (Q_alloc_vs_consumed _ _ _ (Q_read_output bs)); try lia.
-  apply not_fuel_of_erase. rewrite erase_read_output. apply read_output_nf.
+  apply (a_decode_total bs).
+Qed.
+
+(** the same with the panic excluded, for inputs up to [input_limit]: a value or an error, and
+    allocated <= 32 * consumed + 16384 *)
+Definition alloc_vs_consumed_strict {A} (r : ares A) : Prop :=
+  match r with
+  | AOk _ n _ al => al <= alloc_c * n + alloc_k
+  | AErr n al => al <= alloc_c * n + alloc_k
+  | AFuel => False
+  | APanic => False
+  end.
+
+Lemma strict_intro {A} (r : ares A) : alloc_vs_consumed r -> r <> APanic -> alloc_vs_consumed_strict r.
+Proof. destruct r; cbn; auto. Qed.
+
+Theorem alloc_consumed_answers bs : lenN bs <= input_limit ->
+  alloc_vs_consumed_strict (a_read_tx bs) /\ alloc_vs_consumed_strict (a_tx_from_stream bs) /\
+  alloc_vs_consumed_strict (a_read_txs bs) /\
+  (forall ext, alloc_vs_consumed_strict (a_read_input ext bs)) /\ alloc_vs_consumed_strict (a_read_output bs).
+Proof.
+  intros H. repeat split; intros; apply strict_intro;
+    auto using alloc_consumed_tx, alloc_consumed_stream, alloc_consumed_txs, alloc_consumed_input, alloc_consumed_output,
+               no_panic_tx, no_panic_stream, no_panic_txs, no_panic_input, no_panic_output.
 Qed.
